@@ -1,0 +1,20 @@
+//go:build verif
+
+package parser2
+
+// VerifUnaryOpPos returns for every prefix operator the position Parse has stored for the binary
+// operator of the same spelling (-1: the prefix operator is not a binary operator).
+// The table is initialised by the real code in Parse (called once on the empty input).
+func (p *Parser[V]) VerifUnaryOpPos() map[string]int {
+	if p.operatorDetect == nil {
+		func() {
+			defer func() { recover() }()
+			p.Parse("", nil)
+		}()
+	}
+	res := map[string]int{}
+	for u, e := range p.unary {
+		res[u] = e.opPos
+	}
+	return res
+}
